@@ -190,7 +190,10 @@ WITHOUT rolling the IPv4 address back — the failed ADD keeps an address until 
 theorem failed_add_may_retain : (addDecision true true true true false) = { ok := false, rel4 := false, rel6 := false } := by
   decide
 
-/-- Store-level ADD: take ANY reachable state, let the ADD for handle `h` perform ANY sequence
+/-- (`_partial`: `hadd` — a successful ADD consists of non-releasing events only — and `hg4`/`hg6`
+— "AutoAssign returned an address of family f" = "the thread recorded one in a block of family
+f" — are hypotheses; only the driver's `nonrel` flag and C19's endOp check tie them to the code.)
+Store-level ADD: take ANY reachable state, let the ADD for handle `h` perform ANY sequence
 of events none of which is a release (`addEv`: claims, affinity writes, handle
 increments, allocations for `h`, deletes of empty blocks — the driver checks that the
 real successful ADDs consist of such events only).  Then every address the ADD has
@@ -198,7 +201,7 @@ recorded (what AutoAssign returns, `Cas.got`) is live for `h` when the ADD retur
 So with `fam` splitting the blocks into families: if cmdAdd's decision table reports
 success and "AutoAssign returned an address of family f" means "the thread recorded an
 address in a block of family f", every requested family holds an address of `h`. -/
-theorem add_success_all_families (r0 nb : Nat) (evs0 evs : List Ev) (s0 s1 : St)
+theorem add_success_all_families_partial (r0 nb : Nat) (evs0 evs : List Ev) (s0 s1 : St)
     (hr0 : run (St.init r0 nb) evs0 = some s0) (h t : Nat) (hh : h ≠ 0)
     (hadd : ∀ e ∈ evs, addEv h e = true) (hr1 : run s0 evs = some s1)
     (fam : Nat → Bool) (w4 w6 e g4 g6 : Bool)
